@@ -84,18 +84,6 @@ class _LazyMemo(object):
         return f"<_LazyMemo {self.obj}>"
 
 
-class _LazyCall(object):
-    """
-    Out of band marker for a call to be made, later, among lazy writes.
-    """
-
-    def __init__(self, func):
-        self.func = func
-
-    def __repr__(self):
-        return f"<_LazyCall {self.func}>"
-
-
 class _NonrecursivePickler(dill.Pickler):
     """
     Non-recursive pickler class.
@@ -153,86 +141,42 @@ class _NonrecursivePickler(dill.Pickler):
     memoize = lazymemoize
     realmemoize = dill.Pickler.memoize
 
-    def lazycall(self, func):
-        """Call ``func()`` once everything queued so far has been written."""
-        if self.lazywrites:
-            self.lazywrites.append(_LazyCall(func))
+    def memoizenow(self, obj):
+        """
+        Store the object that was just written in the memo -- unless it got
+        there in the meantime.
+
+        pickle memoizes a tuple, a frozenset or a reduced object only *after*
+        its components, and checks first whether saving those has memoized the
+        object in the meantime -- which happens when the object can be reached
+        from one of its own components.  Saving the components is deferred
+        here, so that check runs too early to see anything; a queued memoize
+        is the first point at which it can be made.  By then a second copy of
+        the object has been written: drop it from the unpickler's stack and
+        fetch the memoized one instead, which is what the check is for.
+        """
+        if id(obj) in self.memo:
+            self.realwrite(pickle.POP + self.get(self.memo[id(obj)][0]))
         else:
-            func()
-
-    def save_tuple(self, obj):
-        """
-        Save a (non-empty, not yet memoized) tuple.
-
-        A tuple is the one container that pickle memoizes only *after* its
-        elements, and before doing so it checks whether saving the elements
-        has memoized the tuple in the meantime -- which happens when the tuple
-        can be reached from one of its own elements.  Saving the elements is
-        deferred here, so that check, and what follows it, is deferred as
-        well; otherwise it would run before any element was saved, and such a
-        tuple would be memoized twice.  Mirrors
-        :py:meth:`pickle._Pickler.save_tuple`.
-        """
-        size = len(obj)
-        small = size <= 3 and self.proto >= 2
-        if not small:
-            self.write(pickle.MARK)
-        for element in obj:
-            self.save(element)
-
-        def finish():
-            if id(obj) in self.memo:
-                # the tuple refers to itself; discard this copy and use the
-                # one already memoized
-                get = self.get(self.memo[id(obj)][0])
-                if small:
-                    self.write(pickle.POP * size + get)
-                elif self.bin:
-                    self.write(pickle.POP_MARK + get)
-                else:
-                    self.write(pickle.POP * (size + 1) + get)
-                return
-            if small:
-                self.write(
-                    (pickle.TUPLE1, pickle.TUPLE2, pickle.TUPLE3)[size - 1]
-                )
-            else:
-                self.write(pickle.TUPLE)
-            self.memoize(obj)
-
-        self.lazycall(finish)
-
-    def savenow(self, obj):
-        """
-        Save the given object now (its components are still saved lazily).
-        """
-        if type(obj) is tuple and obj and id(obj) not in self.memo:
-            self.save_tuple(obj)
-        else:
-            self.realsave(obj)
+            self.realmemoize(obj)
 
     def dump(self, obj):
         """Write a pickled representation of obj to the open file."""
         if self.proto >= 2:
             self.write(pickle.PROTO + chr(self.proto).encode("ascii"))
-        self.savenow(obj)
+        self.realsave(obj)
         while self.lazywrites:
             lws = self.lazywrites
             self.lazywrites = []
             while lws:
                 lw = lws.pop(0)
                 if isinstance(lw, _LazySave):
-                    self.savenow(lw.obj)
+                    self.realsave(lw.obj)
                     if self.lazywrites:
                         self.lazywrites.extend(lws)
                         break
                 elif isinstance(lw, _LazyMemo):
-                    self.realmemoize(lw.obj)
-                elif isinstance(lw, _LazyCall):
-                    lw.func()
-                    if self.lazywrites:
-                        self.lazywrites.extend(lws)
-                        break
+                    self.memoizenow(lw.obj)
                 else:
                     self.realwrite(*lw)
         self.realwrite(pickle.STOP)
